@@ -53,12 +53,12 @@ func dnsReset() {
 }
 
 type dnsSetup struct {
-	nNames   [2]int
-	nUps     [2]int
-	schemes  []string
-	rich     bool
-	reject   bool
-	dialMode consts.DialMode
+	nNames    [2]int
+	nUps      [2]int
+	schemes   []string
+	rich      bool
+	reject    bool
+	dialMode  consts.DialMode
 	bpfFaults bool
 }
 
@@ -245,7 +245,9 @@ func dnsScenarioC09(w *dnsWorld) {
 		ci := ci
 		verifsim.Go(fmt.Sprintf("client%d", ci), func() {
 			defer func() { cliDone++ }()
-			for _, st := range plans[ci] {
+			plan := plans[ci]
+			for pi := 0; pi < len(plan); pi++ {
+				st := plan[pi]
 				if s.Failed() {
 					return
 				}
@@ -262,7 +264,52 @@ func dnsScenarioC09(w *dnsWorld) {
 					}
 					continue
 				}
+				spread := func(op *dnsOp) {
+					if op.qtype == dnsmessage.TypeTXT {
+						// "other type" questions: spread over the pool of rarely asked types when the
+						// question is put (partner of a cached type first), mostly over UDP
+						op.qtype = w.spreadOtherType(op.name, op.idx)
+						op.viaUDP = op.viaUDP || op.idx%2 == 0
+					}
+				}
+				spread(st.op)
+				if !st.op.viaUDP && st.op.idx%3 == 2 {
+					// third reply path (derived from the op number, no draw): this question and the
+					// ones that follow it directly go over ONE TCP connection through the transparent
+					// DNS-over-TCP fast path; every other such connection writes all queries at once
+					group := []*dnsOp{st.op}
+					for pi+1 < len(plan) && plan[pi+1].op != nil {
+						pi++
+						spread(plan[pi].op)
+						plan[pi].op.viaUDP = false
+						group = append(group, plan[pi].op)
+					}
+					w.doTCPConn(group, st.op.idx%2 == 0, 10*time.Second)
+					continue
+				}
 				w.doOp(st.op, 10*time.Second)
+				if op := st.op; op.viaUDP && op.idx%2 == 0 && op.qtype != dnsmessage.TypeA && op.qtype != dnsmessage.TypeAAAA && !s.Failed() {
+					w.track.scan()
+					if w.track.entry(op.key) != nil {
+						// the answer is cached now: two more hosts ask the same question at the same
+						// moment over the transparent UDP path, under their own ids (derived, no draw)
+						s.Probe("dns.concurrent-udp-cache-hits")
+						burst := 0
+						for j := 0; j < 2; j++ {
+							b := &dnsOp{cli: nCli + 2*ci + j, idx: len(w.ops), name: op.name, qtype: op.qtype, qname: op.qname, id: uint16(0x2000 + 2*op.idx + j), viaUDP: true}
+							w.ops = append(w.ops, b)
+							w.opsTotal++
+							verifsim.Go(fmt.Sprintf("client%d", b.cli), func() {
+								w.doOp(b, 10*time.Second)
+								burst++
+							})
+						}
+						for burst < 2 && !s.Failed() {
+							time.Sleep(time.Millisecond)
+							verifsim.YieldB("client-woke")
+						}
+					}
+				}
 			}
 		})
 	}
@@ -427,8 +474,8 @@ func TestSimDNS(t *testing.T) {
 	}
 	verifsim.Main(t, verifsim.Engine{
 		Prop: prop, Name: "dns", MaxSteps: 40000, Scenario: dnsScenario, Reset: dnsReset,
-		Real: []string{"control.DnsController (HandleWithResponseWriter_, singleflight path, dialSend, forwardWithFallback, cache insert/lookup/evict, janitor, evictor, bpfUpdateWorker, backgroundRefresh, ReuseForReload, Clone/RestoreReloadCache, forwarder cache beginUse/endUse/retire), control.DoUDP/DoTCP + udpConnPool/connPool/pipelinedConn, control.domainRoutingTracker via controlPlaneCore.BatchUpdate/RemoveDomainRouting and the production dnsControllerOption() callbacks, ControlPlane.ChooseDialTarget / triggerRealDomainProbe / probeAndUpdateRealDomain, component/dns request+response matchers built by dns.New from generated config text, component/outbound/dialer.Dialer"},
+		Real:  []string{"control.DnsController (HandleWithResponseWriter_, singleflight path, dialSend, forwardWithFallback, cache insert/lookup/evict, janitor, evictor, bpfUpdateWorker, backgroundRefresh, ReuseForReload, Clone/RestoreReloadCache, forwarder cache beginUse/endUse/retire), control.DoUDP/DoTCP + udpConnPool/connPool/pipelinedConn, control.domainRoutingTracker via controlPlaneCore.BatchUpdate/RemoveDomainRouting and the production dnsControllerOption() callbacks, ControlPlane.ChooseDialTarget / triggerRealDomainProbe / probeAndUpdateRealDomain, component/dns request+response matchers built by dns.New from generated config text, component/outbound/dialer.Dialer"},
 		Stubs: []string{"upstream DNS servers, UDP sockets, TCP connections, dial outcomes: simulated (verifsim.SimDialer/SimPacketConn/StreamEnd, scripted per query)", "client sockets: dnsmessage.ResponseWriter fake or a hook replacing sendRuntimeTrackedPkt (Anyfrom sockets need a netns)", "domain_routing_map: Go map behind hooks in the stub build's BpfMapBatchUpdate/Delete", "BestDialerChooser: harness function (outbound groups / routing of the DNS connection itself not built)", "routingMatcher.domainMatcher: table name->bitmap", "real-domain probe resolver: harness function behind the resolveIp46ForRealDomainProbe seam", "DoH/DoQ/DoTLS, DNS listener, ip_version_prefer wait: not run"},
-		Rule: "one run serves one property (mode in the tape): tape draws names, 1-3 upstreams (udp/tcp/tcp+udp), dns{} routing text, cache knobs, clients x questions (colliding ids, case variants, udp or writer reply path), per-query upstream behaviour (right/late/never/twice/other question/wrong id/truncated/close mid-frame/SERVFAIL/transport error), dial outcomes, forwarder reset, reload; non-trivial = >=2 schedulable options at some step or >=1 fault fired",
+		Rule:  "one run serves one property (mode in the tape): tape draws names, 1-3 upstreams (udp/tcp/tcp+udp), dns{} routing text, cache knobs, clients x questions (colliding ids, case variants, udp or writer reply path), per-query upstream behaviour (right/late/never/twice/other question/wrong id/truncated/close mid-frame/SERVFAIL/transport error), dial outcomes, forwarder reset, reload; non-trivial = >=2 schedulable options at some step or >=1 fault fired",
 	})
 }
